@@ -253,7 +253,8 @@ class CHECK(Check):
     technique = ("Lean 4 theorems over the Merge model (encoder built from the separator/replace chain lifted from the "
                  "source) + compiled-driver correspondence with moments, ExponentiatedGradient, GridSearch and "
                  "ThresholdOptimizer on adversarial tables")
-    level_text = ("Theorems (all rows over arbitrary characters, no size bound): the decoder inverts the merge "
+    level_text = ("Theorems (all rows over arbitrary characters, no size bound): the induced groups are a PARTITION of the row "
+                  "positions (every row in exactly one class, classes disjoint, none empty, one per distinct key); the decoder inverts the merge "
                   "(split_join), hence the merge is injective on non-empty rows, two rows share a key iff they agree "
                   "in every column, the key partition equals the tuple-equality partition and MetricFrame's non-empty "
                   "intersectional cells. Tie: Generated/MergeConsts.lean is lifted from _merge_columns on every run; "
